@@ -348,7 +348,7 @@ func (m *Model) noDisruption(t1, t2 time.Time) bool {
 // accepts: the integration succeeds (possibly slowly, at most slack) for attempts started anywhere in [t1,t2].
 func (m *Model) accepts(receiver string, idx int, t1, t2 time.Time, slack time.Duration) bool {
 	ok := func(b Behave) bool {
-		return b.Kind == "ok" || (b.Kind == "slow" && time.Duration(b.D)*time.Second <= slack)
+		return b.Kind == "ok" || (b.Kind == "slow" && b.Dur() <= slack)
 	}
 	if !ok(m.BehaveAt(receiver, idx, t1)) {
 		return false
